@@ -485,8 +485,11 @@ pub fn display(v: &RV, quoted: bool) -> Option<String> {
 }
 
 /// Builtin call inside the reference interpreter (with aliasing effects).
-pub fn call_rv(it: &mut Interp, name: &str, args: &[RV], vals: &[Val]) -> Result<RV, Stop> {
+pub fn call_rv(it: &mut Interp, name: &str, args: &[RV]) -> Result<RV, Stop> {
     match (name, args) {
+        ("len", [RV::Arr(a)]) => Ok(RV::Int(a.borrow().len() as i64)),
+        ("len", [RV::Map(m)]) => Ok(RV::Int(m.borrow().len() as i64)),
+        ("len", [RV::Str(s)]) => Ok(RV::Int(s.len() as i64)),
         ("first", [RV::Arr(a)]) => Ok(a.borrow().first().cloned().unwrap_or(RV::Null)),
         ("last", [RV::Arr(a)]) => Ok(a.borrow().last().cloned().unwrap_or(RV::Null)),
         ("rest", [RV::Arr(a)]) => {
@@ -498,7 +501,7 @@ pub fn call_rv(it: &mut Interp, name: &str, args: &[RV], vals: &[Val]) -> Result
             }
         }
         ("push", [RV::Arr(a), v]) => {
-            if a.borrow().len() > 4096 {
+            if a.borrow().len() > it.max_len {
                 return Err(Stop::Budget);
             }
             a.borrow_mut().push(v.clone());
@@ -552,7 +555,9 @@ pub fn call_rv(it: &mut Interp, name: &str, args: &[RV], vals: &[Val]) -> Result
             if !PURE.contains(&name) {
                 return Err(Stop::Unspecified(format!("builtin {} is not modelled", name)));
             }
-            match contract(name, vals) {
+            // values are converted only here (conversion of a large shared array on every call is quadratic)
+            let vals: Vec<Val> = args.iter().map(to_val).collect();
+            match contract(name, &vals) {
                 Expect::Is(v) => Ok(super::interp::from_val(&v)),
                 Expect::Error => Err(rt(name)),
                 Expect::Pred(d, _) if d == "an error object" => Ok(RV::Err("error".into())),
